@@ -100,6 +100,10 @@ def finish(prop, tier, seed, level, coverage, violations, t0, assumptions=(), ma
         print('KNOWN-FINDING: property=%s %s [%s] (%d case(s) this run, e.g. %s)' % (
             prop, entry.get('what', ''), fid, len(vs), vs[0].what))
     coverage = dict(coverage)
+    if not isinstance(coverage.get('exhaustive', False), bool):
+        # a description of which families were enumerated completely; the run as a whole also samples
+        coverage['exhaustive_part'] = str(coverage['exhaustive'])
+        coverage['exhaustive'] = False
     coverage.setdefault('known_finding_cases', sum(len(vs) for _, vs in old.values()))
     ev = {'property_id': prop, 'tier': tier, 'seed': seed, 'level': level, 'coverage': coverage,
           'assumptions': list(assumptions), 'wall_s': round(time.time() - t0, 2), 'violations': len(new)}
